@@ -236,8 +236,18 @@ def haze_fn(case):
     fx.reset_caches()
     install()
     other = ['abs'] if case['with_abs'] else []
-    m = fx.build_model(base_spec(case, other + [contrib]))
-    tag = '%s/top=%s,bottom=%s' % (kind, case['top'], case['bottom'])
+    spec_ = base_spec(case, other + [contrib])
+    if case.get('pgrid') == 'uneven' and N >= 2:
+        # layer pressures tabulated with alternating narrow and wide steps (0.3 and 1.1 dex): layers of very different
+        # thickness in log pressure; the levels are then the model's own
+        steps = np.where(np.arange(N - 1) % 2 == 0, 0.3, 1.1)
+        spec_['parray'] = np.array(prange[0] * 10 ** (-np.concatenate([[0.15], 0.15 + np.cumsum(steps)])), dtype=float)
+    m = fx.build_model(spec_)
+    if case.get('pgrid') == 'uneven' and N >= 2:
+        lev = np.asarray(m.pressure.pressure_profile_levels, dtype=float)
+        if lev[0] < lev[-1]:
+            lev = lev[::-1]
+    tag = '%s/top=%s,bottom=%s%s' % (kind, case['top'], case['bottom'], ',uneven-grid' if case.get('pgrid') == 'uneven' else '')
     try:
         g, d, t, _ = m.model()
     except Exception as e:
@@ -419,6 +429,7 @@ def explore(ctx):
         for mix, (rad, q) in itertools.product(mixes[:2], [(0.05, 40.0), (1.0, 2.0)] if thorough else [(0.05, 40.0)]):
             hcases.append({'kind': 'lee', 'N': N, 'prange': pr, 'top': top, 'bottom': bot, 'mix': mix,
                            'radius': rad, 'q': q, 'with_abs': mix == 1e-10})
+    hcases += [dict(c_, pgrid='uneven') for c_ in hcases if c_['kind'] == 'flat' and c_['N'] in (3, 5) and c_['mix'] == 1e-10]
     ctx.run_cases('haze_fn', hcases, phase='hazes')
     nc = [{'kind': k_, 'N': n_, 'prange': pr} for k_ in ('flat', 'lee') for n_ in ((1, 2, 3, 5) if thorough else (1, 3))
           for pr in PRANGES[:(len(PRANGES) if thorough else 1)]]
